@@ -400,16 +400,22 @@ theorem stored_eaten (h : Feasible (buildLP i kind) x) (hon : i.addStored = true
       split_ifs <;> first | lp_mem | (subst_vars; lp_mem)
   exact storedEaten_holds.mp (holds_of_mem_stored h hon hm hr)
 
-/-- without storage between years nothing is drawn from stored food after month 12 -/
-theorem stored_use_zero (h : Feasible (buildLP i kind) x) (hon : i.addStored = true)
+/-- without storage between years the stored-food variables of the months after month 12 are 0 -/
+theorem stored_vars_zero (h : Feasible (buildLP i kind) x) (hon : i.addStored = true)
     (hs : i.storeBetweenYears = false) (hm : m < i.nmonths) (h12 : 12 < m) :
-    storedUse i x m = 0 := by
+    x (.mv .sfHumans m) = 0 ∧ x (.mv .sfFeed m) = 0 ∧ x (.mv .sfBiofuel m) = 0 := by
   have hm0 : m ≠ 0 := by omega
   have H : ∀ r ∈ storedRows i kind m, r.holds x := fun r hr => holds_of_mem_stored h hon hm hr
   unfold storedRows storedRowsFirstYear at H
   simp only [hs, Bool.not_false, if_true, hm0, if_false, h12] at H
   lp_rows at H
-  obtain ⟨h1, h2, h3, -⟩ := H
+  exact ⟨H.1, H.2.1, H.2.2.1⟩
+
+/-- without storage between years nothing is drawn from stored food after month 12 -/
+theorem stored_use_zero (h : Feasible (buildLP i kind) x) (hon : i.addStored = true)
+    (hs : i.storeBetweenYears = false) (hm : m < i.nmonths) (h12 : 12 < m) :
+    storedUse i x m = 0 := by
+  obtain ⟨h1, h2, h3⟩ := stored_vars_zero h hon hs hm h12
   unfold storedUse
   rw [h1, h2, h3, grossUp_zero]; ring
 
